@@ -85,6 +85,9 @@ Next ==
     \/ \E h \in HandlerUniverse \cup {"?"}, res \in {"ok", "err"}, c \in DataClasses : Inject(h, res, c)
     \/ ReplyDispatch
 Spec == Init /\ [][Next]_rvars
+(* every reply that reaches the dispatcher is answered (checked under fairness of the dispatcher only, no constraint) *)
+FairSpec == Spec /\ WF_rvars(ReplyDispatch)
+Dispatched == (st = "replied") ~> (st = "dispatched")
 
 (* C14 (design): the observable table does not depend on declaration order *)
 LemmaOrderIndependent == \A i \in 1..Len(TableSeq) : OrderIndependent(TableProg(i))
